@@ -389,7 +389,7 @@ def genflow_stream(ctx, out):
 
 def gen_case(rng):
     if rng.random() < 0.4:
-        d = J.gen_doc(rng)
+        d = J.gen_doc(rng, ultra=True)
         return {"kind": "jet", "doc": d, "text": J.render(d)}
     d = G.gen_doc(rng)
     return {"kind": "oscar", "doc": d, "text": G.render(d)}
